@@ -1,2 +1,203 @@
-(* C13 - viewport, no-op and grouping laws (placeholder header; theorems below). *)
-From PsdV Require Import Composite.Scalar Composite.Model Composite.Geometry Composite.ProofsGeometry.
+(* C13 - compositing obeys viewport, no-op and grouping laws; results stay in [0,1].
+
+   Same model as C11 (Composite/Model.v kernel + Composite/Doc.v document sampling, instance over the reals).
+   Results are compared modulo colour where alpha is 0: the code's 0/0 -> 1 convention makes that colour
+   arbitrary ([peq] on states, [result_eq] on results: shape, alpha and alpha*colour).
+   Compression independence and save+reopen independence are facts about the codecs (C04/C01) composed with
+   the observation that the model is a function of the DECODED planes only; they are checked by two runs of
+   the implementation in harness/vh/c13.py and are not theorems here. *)
+From Coq Require Import ZArith Reals List Bool.
+From PsdV Require Import Composite.Scalar Composite.Model Composite.Spec Composite.Geometry Composite.Doc
+  Composite.ProofsKernel Composite.ProofsGeometry Composite.ProofsLaws Composite.ProofsDoc Composite.ProofsViewport
+  Composite.ProofsInsert Composite.ProofsWrap.
+Import ListNotations.
+
+(* ---------------- geometry: _intersect and paste (index arithmetic on Z) *)
+Open Scope Z_scope.
+Theorem inside_intersect a b x y : inside (intersect a b) x y = inside a x y && inside b x y.
+Proof. exact (ProofsGeometry.inside_intersect a b x y). Qed.
+Print Assumptions inside_intersect.
+
+Theorem intersect_sentinel a b :
+  is_zero_rect (intersect a b) = true <-> forall x y, inside a x y && inside b x y = false.
+Proof. exact (intersect_zero_iff a b). Qed.
+Print Assumptions intersect_sentinel.
+
+Theorem paste_absolute {A : Type} (vp bb : rect) (values : Z -> Z -> A) (bg : A) (x y : Z) :
+  inside vp x y = true ->
+  let '(vl, vt, _, _) := vp in let '(bl, bt, _, _) := bb in
+  paste vp bb values bg (y - vt) (x - vl) = if inside bb x y then values (y - bt) (x - bl) else bg.
+Proof. exact (paste_abs vp bb values bg x y). Qed.
+Print Assumptions paste_absolute.
+
+Theorem paste_subviewport_is_crop {A : Type} (vp vp' bb : rect) (values : Z -> Z -> A) (bg : A) (x y : Z) :
+  inside vp x y = true -> inside vp' x y = true ->
+  let '(vl, vt, _, _) := vp in let '(vl', vt', _, _) := vp' in
+  paste vp' bb values bg (y - vt') (x - vl') = paste vp bb values bg (y - vt) (x - vl).
+Proof. exact (paste_crop vp vp' bb values bg x y). Qed.
+Print Assumptions paste_subviewport_is_crop.
+
+Open Scope R_scope.
+
+(* ---------------- viewport = crop, for whole documents (any nesting, masks, clipping runs, groups) *)
+Theorem viewport_crop (ls : list layer) (vp' vp : rect) (cb ab : R) (x y : Z) (k : nat) :
+  Forall layer_ok ls -> unit cb -> unit ab ->
+  subrect vp' vp -> inside vp' x y = true ->
+  result_eq (@composite_doc ROps vp' cb ab ls x y k) (@composite_doc ROps vp cb ab ls x y k).
+Proof. exact (ProofsViewport.viewport_crop ls vp' vp cb ab x y k). Qed.
+Print Assumptions viewport_crop.
+
+Theorem viewport_independent (ls : list layer) (vp1 vp2 : rect) (cb ab : R) (x y : Z) (k : nat) :
+  Forall layer_ok ls -> unit cb -> unit ab ->
+  inside vp1 x y = true -> inside vp2 x y = true ->
+  result_eq (@composite_doc ROps vp1 cb ab ls x y k) (@composite_doc ROps vp2 cb ab ls x y k).
+Proof. exact (ProofsViewport.viewport_independent ls vp1 vp2 cb ab x y k). Qed.
+Print Assumptions viewport_independent.
+
+Example viewport_hypotheses_example :
+  subrect (1, 0, 3, 2)%Z (0, 0, 4, 2)%Z /\ inside (1, 0, 3, 2)%Z 2 1 = true.
+Proof. split; [cbn; Lia.lia | reflexivity]. Qed.
+
+(* ---------------- no-op layers *)
+(* hidden: filtered out before anything is computed *)
+Theorem noop_hidden vp x y k (L : layer) clips :
+  at_vis (attrs_of L) = false -> @sample_layer ROps vp x y k L clips = [].
+Proof. exact (sample_hidden vp x y k L clips). Qed.
+Print Assumptions noop_hidden.
+
+(* outside the viewport: the early exit *)
+Theorem noop_outside vp x y k (L : layer) clips :
+  is_zero_rect (intersect vp (bbox_of L)) = true -> @sample_layer ROps vp x y k L clips = [].
+Proof. exact (sample_outside vp x y k L clips). Qed.
+Print Assumptions noop_outside.
+
+(* shape 0 at the pixel (outside the layer's box, or alpha 0 there), whatever its colour, blend function,
+   knockout flag, mask and clip layers: the state is equivalent to the state before *)
+Theorem noop_zero_alpha cs fa B ko clips (s : state ROps) :
+  Inv s -> peq (apply_elem (@Leaf ROps cs 0 fa B ko clips) s) s.
+Proof. exact (leaf_null_noop cs fa B ko clips s). Qed.
+Print Assumptions noop_zero_alpha.
+
+(* opacity 0: group alpha, total alpha and premultiplied colour are unchanged (the SHAPE grows, as PDF
+   prescribes; it only matters inside knockout groups, which is why the statement is not [peq]) *)
+Theorem noop_zero_opacity cs f fa B clips (s : state ROps) :
+  Inv s -> unit f -> fa_ok fa -> fq fa = 0 ->
+  let s' := apply_elem (@Leaf ROps cs f fa B false clips) s in
+  ag s' = ag s /\ a s' = a s /\ a s' * c s' = a s * c s.
+Proof. exact (leaf_zero_opacity_noop cs f fa B clips s). Qed.
+Print Assumptions noop_zero_opacity.
+
+(* colour under zero alpha never leaks: every element, every list and finish respect the equivalence *)
+Theorem equivalence_is_a_congruence (l : list (elem ROps)) : Forall wf l ->
+  forall s t, Inv s -> Inv t -> peq s t -> peq (apply_list l s) (apply_list l t).
+Proof. exact (apply_list_peq l). Qed.
+Print Assumptions equivalence_is_a_congruence.
+
+Theorem finish_respects_equivalence (s t : state ROps) : Inv s -> Inv t -> peq s t ->
+  let '(C, f, al) := @finish ROps s in let '(C', f', al') := @finish ROps t in
+  f = f' /\ al = al' /\ al * C = al' * C'.
+Proof. exact (finish_peq s t). Qed.
+Print Assumptions finish_respects_equivalence.
+
+(* removing shape-0 leaves anywhere in an element tree (inside groups, inside clipping runs) is sound *)
+Theorem dropping_null_elements_is_sound (l' l : list (elem ROps)) :
+  sim l' l -> Forall wf l' -> Forall wf l ->
+  forall s t, Inv s -> Inv t -> peq s t -> peq (apply_list l' s) (apply_list l t).
+Proof. exact (proj1 sim_sound l' l). Qed.
+Print Assumptions dropping_null_elements_is_sound.
+
+(* ---------------- pass-through wrapping *)
+Theorem passthrough_wrap (l : list (elem ROps)) (s : state ROps) :
+  Forall wf l -> Forall (fun e => elem_ko e = false) l -> Inv s ->
+  peq (apply_elem (@Group ROps false l ones normal_fn false []) s) (apply_list l s).
+Proof. exact (ProofsLaws.passthrough_wrap l s). Qed.
+Print Assumptions passthrough_wrap.
+
+Example passthrough_wrap_example :
+  let e1 := @Leaf ROps (1/5) (1/2) ones (@blend_fn ROps BMultiply) false [] in
+  let e2 := @Group ROps true [@Leaf ROps (4/5) 1 ones (@blend_fn ROps BScreen) false []] ones normal_fn false
+              [@Leaf ROps (1/2) (1/4) ones normal_fn false []] in
+  Forall wf [e1; e2] /\ Forall (fun e => elem_ko e = false) [e1; e2] /\ Inv (@init ROps false (3/4) (1/2)).
+Proof.
+  assert (U : forall x : R, 0 <= x <= 1 -> unit x) by (intros; assumption).
+  assert (O : fa_ok ones) by (unfold fa_ok, ones, unit; cbn; Lra.lra).
+  assert (N : blend_ok normal_fn) by (intros ? ? _ H; exact H).
+  split; [|split; [repeat constructor | apply init_Inv; unfold unit; Lra.lra]].
+  repeat (constructor; try assumption; try apply ProofsBlend.blend_fn_range; try (unfold unit; Lra.lra)).
+Qed.
+
+(* a pass-through group WITH mask m, density d, fill k and opacity q (t = m*d*q*k): the parent ends in the
+   premultiplied linear interpolation between its state before the group and the state reached by painting
+   the children directly - what "opacity of a pass-through group" means *)
+Theorem passthrough_opacity_is_lerp (l : list (elem ROps)) (fa : factors ROps) (s : state ROps) :
+  Forall wf l -> Forall (fun e => elem_ko e = false) l -> fa_ok fa -> Inv s ->
+  let t := fm fa * fd fa * fq fa * fk fa in
+  let w := apply_elem (@Group ROps false l fa normal_fn false []) s in
+  let d := apply_list l s in
+  a w = Spec.lerp t (a s) (a d) /\ a w * c w = Spec.lerp t (a s * c s) (a d * c d).
+Proof. exact (ProofsLaws.passthrough_lerp l fa s). Qed.
+Print Assumptions passthrough_opacity_is_lerp.
+
+(* ---------------- the same laws on whole documents *)
+(* a hidden layer, or a layer whose box misses the viewport, inserted anywhere in a sibling list: the sampled
+   element list is literally the same, provided the insertion does not re-parent the clipping layers that
+   follow (the inserted layer is a clipping layer itself, or the next sibling is not one) *)
+Theorem noop_insert_hidden vp x y k (N : layer) (l1 l2 : list layer) :
+  at_vis (attrs_of N) = false ->
+  at_clip (attrs_of N) = true \/ next_not_clipping l2 ->
+  @sample_list ROps vp x y k (l1 ++ N :: l2) = @sample_list ROps vp x y k (l1 ++ l2).
+Proof. intros H. apply sample_list_insert. apply hidden_vanishes. exact H. Qed.
+Print Assumptions noop_insert_hidden.
+
+Theorem noop_insert_outside vp x y k (N : layer) (l1 l2 : list layer) :
+  is_zero_rect (intersect vp (bbox_of N)) = true ->
+  at_clip (attrs_of N) = true \/ next_not_clipping l2 ->
+  @sample_list ROps vp x y k (l1 ++ N :: l2) = @sample_list ROps vp x y k (l1 ++ l2).
+Proof. intros H. apply sample_list_insert. apply outside_vanishes. exact H. Qed.
+Print Assumptions noop_insert_outside.
+
+(* inside a group the hidden layer does not even change the group's bounding box *)
+Theorem noop_insert_hidden_in_group vp x y k pass (N : layer) (l1 l2 : list layer) at_ clips :
+  at_vis (attrs_of N) = false ->
+  at_clip (attrs_of N) = true \/ next_not_clipping l2 ->
+  @sample_layer ROps vp x y k (Gr pass (l1 ++ N :: l2) at_) clips =
+  @sample_layer ROps vp x y k (Gr pass (l1 ++ l2) at_) clips.
+Proof. exact (sample_group_insert_hidden vp x y k pass N l1 l2 at_ clips). Qed.
+Print Assumptions noop_insert_hidden_in_group.
+
+(* wrapping a range of whole clipping runs of a sibling list in a visible, full-opacity, full-fill, unmasked,
+   non-knockout pass-through group: equivalent state at every pixel of the viewport, from every state
+   (so the law holds at any depth), the group's own viewport restriction and early exits included *)
+Theorem passthrough_wrap_document vp x y k (l1 run l2 : list layer) (s : state ROps) :
+  inside vp x y = true ->
+  Forall layer_ok l1 -> Forall layer_ok run -> Forall layer_ok l2 ->
+  starts_with_base run -> next_not_clipping l2 ->
+  Forall (fun L => at_ko (attrs_of L) = false) run -> Inv s ->
+  peq (apply_list (@sample_list ROps vp x y k (l1 ++ [Gr true run wrap_attrs] ++ l2)) s)
+      (apply_list (@sample_list ROps vp x y k (l1 ++ run ++ l2)) s).
+Proof. exact (ProofsWrap.passthrough_wrap_document vp x y k l1 run l2 s). Qed.
+Print Assumptions passthrough_wrap_document.
+
+Example passthrough_wrap_document_example :
+  let base := Px (0, 0, 2, 1)%Z [[51; 204]%Z] [255; 128]%Z (MkAttrs true 255 255 BMultiply false None false) in
+  let clipl := Px (1, 0, 3, 1)%Z [[10; 20]%Z] [64; 255]%Z (MkAttrs true 128 64 BScreen true None false) in
+  starts_with_base [base; clipl] /\ next_not_clipping [base] /\
+  Forall (fun L => at_ko (attrs_of L) = false) [base; clipl] /\ Forall layer_ok [base; clipl].
+Proof.
+  repeat split; try reflexivity; repeat constructor;
+    unfold is_byte, attrs_ok, bytes_ok; cbn; repeat constructor; unfold is_byte; try Lia.lia.
+Qed.
+
+(* ---------------- range *)
+Theorem results_in_unit_interval (ls : list layer) vp cb ab x y k :
+  Forall layer_ok ls -> unit cb -> unit ab ->
+  let '(C, f, al) := @composite_doc ROps vp cb ab ls x y k in unit C /\ unit f /\ unit al.
+Proof. exact (composite_doc_in_range ls vp cb ab x y k). Qed.
+Print Assumptions results_in_unit_interval.
+
+(* Not proved (the harness checks these relations on the implementation):
+   - insertion of a VISIBLE alpha-0 / opacity-0 layer inside a group at document level: it enlarges the
+     group's bounding box and hence its viewport; the result is unchanged by [viewport_independent] applied
+     inside the group plus [noop_zero_alpha] / [noop_zero_opacity], but the composed statement is not
+     formalised (at the top level of a document it is [dropping_null_elements_is_sound] on the sampled lists);
+   - compression / reopen independence: two-run tests (see header). *)
